@@ -205,6 +205,7 @@ package snapshot
 //@ func (*snapshotFile).Sync
 //@   requires s != nil && s.w != nil && s.File != nil
 //@   before os.(*File).Sync assert [C18.file.sync+C07] s.w.flushed
+//@   ensures result == nil ==> s.w.flushed
 //@   modifies s.w.flushed
 //@ func (*snapshotFile).Close
 //@   requires s != nil && s.w != nil && s.File != nil
